@@ -188,6 +188,7 @@ pub fn phase(sim: &mut Sim, rng: &mut Rng, rep: &mut Report) -> Result<(), Strin
 	// --- 2. the close ---
 	let revoked: Vec<usize> = sim.w.captured.iter().enumerate().filter(|(_, c)| c.chan == ci && sim.w.is_revoked(c)).map(|(i, _)| i).collect();
 	let rec;
+	let mut late_mode = false;
 	let focus_idx = focus_capture.and_then(|t| revoked.iter().cloned().find(|i| sim.w.captured[*i].txid == t));
 	if focus_idx.is_some() {
 		rep.count("onchain_justice_focus_closes");
@@ -222,10 +223,59 @@ pub fn phase(sim: &mut Sim, rng: &mut Rng, rep: &mut Report) -> Result<(), Strin
 		let r = sim.w.nodes[closer].mgr.force_close_broadcasting_latest_txn(&cid, &pid, "harness force close".to_string());
 		sim.w.obs.push_back(Obs::Api { step: sim.w.step, node: closer, call: "force_close".into(), result: format!("{:?}", r) });
 		sim.w.drain_taps();
-		sim.w.pump(closer);
+		late_mode = sim.w.late_update && !cut_first && sim.w.is_connected(a, b);
+		if late_mode {
+			// the closing node is gone right after handing its commitment to the network: its error message is
+			// never sent, the other side still believes the channel open and the connection alive
+			sim.w.note(format!("ONCHAIN node{} vanishes after broadcasting; its peer is not told", closer));
+			let _ = lightning::ln::msgs::BaseMessageHandler::get_and_clear_pending_msg_events(&sim.w.nodes[closer].mgr);
+		} else {
+			sim.w.pump(closer);
+		}
 		rec = CloseRecord { chan: ci, broadcaster: closer, revoked: false, commitment_txid: None, height: sim.w.chain.height(), attacker_txids: vec![] };
 		sim.w.close = Some(rec.clone());
 		rep.count("onchain_closes_by_latest_commitment");
+	}
+	// option: the other party's manager is a block behind its monitor. Its monitor sees the closing
+	// transaction confirm, its manager – still connected, still believing the channel open – sends one more
+	// HTLC, whose monitor update therefore arrives after the funding spend; then the manager catches up.
+	let mut late_payment: Option<(usize, [u8; 32])> = None;
+	let mut late_floor: Option<u32> = None;
+	if late_mode {
+		let late = sim.w.chans[ci].peer_of(rec.broadcaster);
+		sim.w.hold_mgr_blocks = Some(late);
+		let funding = sim.w.chans[ci].funding.as_ref().map(|f| bitcoin::OutPoint { txid: f.compute_txid(), vout: 0 });
+		let saved_delay = sim.w.miner_delay_max;
+		sim.w.miner_delay_max = 0;
+		for _ in 0..3 {
+			// (an anchor commitment reaches the network through its bump event)
+			sim.w.process_events(rec.broadcaster);
+			sim.w.mine(1);
+			if funding.map(|f| sim.w.chain.spent.contains_key(&f)).unwrap_or(false) {
+				break;
+			}
+		}
+		sim.w.miner_delay_max = saved_delay;
+		if funding.map(|f| sim.w.chain.spent.contains_key(&f)).unwrap_or(false) {
+			// (at least one block on top of the spend before the update arrives)
+			for _ in 0..1 + rng.below(3) {
+				sim.w.mine(1);
+			}
+			late_floor = funding.and_then(|f| sim.w.chain.spent.get(&f).map(|x| x.1));
+			let cid = sim.w.chans[ci].chan_id();
+			if let Some(d) = sim.w.nodes[late].mgr.list_usable_channels().into_iter().find(|c| c.channel_id == cid) {
+				if d.next_outbound_htlc_limit_msat > 3_000_000 {
+					sim.w.step += 1;
+					sim.w.note(format!("ONCHAIN node{}'s manager has not heard of the last blocks yet and sends one more HTLC", late));
+					if let Ok(pi) = sim.w.send_payment(late, &[(vec![ci], 1_500_000 + rng.below(1_000_000))], 80, None, None) {
+						late_payment = Some((late, sim.w.payments[pi].hash.0));
+						rep.count("onchain_late_updates_after_the_funding_spend");
+					}
+				}
+			}
+		}
+		sim.w.disconnect(a, b);
+		sim.w.release_held_blocks();
 	}
 	if !cut_first {
 		sim.w.disconnect(a, b);
@@ -238,7 +288,8 @@ pub fn phase(sim: &mut Sim, rng: &mut Rng, rep: &mut Report) -> Result<(), Strin
 		vec![]
 	};
 	// --- 3. mine until everything has matured ---
-	let start = sim.w.chain.height();
+	// (forks may replace what was mined on top of the closing transaction during the late-update step)
+	let start = late_floor.unwrap_or(sim.w.chain.height());
 	let mut quiet_blocks = 0;
 	let mut attacker_stage2_done = false;
 	// the cheater's second-stage transactions that are out but not confirmed; in half of the runs they reach
@@ -399,6 +450,13 @@ pub fn phase(sim: &mut Sim, rng: &mut Rng, rep: &mut Report) -> Result<(), Strin
 	while sim.w.chain.height() < sim.w.peak_height {
 		sim.w.mine(1);
 		events_all(sim, rep);
+	}
+	if let Some((n, h)) = late_payment {
+		rep.count("c03_p10_late_updates_judged");
+		if !sim.w.terminal_seen.contains(&(n, h)) {
+			sim.raised.push(("C03".into(), "P10-terminal-event-after-late-update".into(), "a payment whose only HTLC reached the monitor after the channel's funding output had been spent (by a commitment without it) never got a terminal event although everything on chain has matured".into(), format!("node{} payment hash {} chan {}", n, vcore::hex(&h[..6]), ci)));
+			return Ok(());
+		}
 	}
 	rep.add("onchain_blocks_mined", (sim.w.chain.height() - start) as u64);
 	sim.w.miner_min_feerate = 0;
